@@ -56,7 +56,18 @@ def gen_test(recipe, cex, oid):
     code = int(cex["code_value"], 16)
     kind = recipe["kind"]
     body = ""
-    if kind == "scalar_fn":
+    if kind == "pk_linearization":
+        ev_map = ", ".join(f'"{n}" => {S("evaluations." + n)}' for n in
+                           ["a_eval", "b_eval", "c_eval", "d_eval", "a_w_eval", "b_w_eval", "d_w_eval", "q_arith_eval", "q_c_eval",
+                            "q_l_eval", "q_r_eval", "s_sigma_1_eval", "s_sigma_2_eval", "s_sigma_3_eval", "z_eval"])
+        body += f"let evaluations = evals(&|n: &str| match n {{ {ev_map}, _ => unreachable!() }});\n"
+        # every selector polynomial is the CONSTANT polynomial of the counterexample's value: the result is then a constant polynomial too
+        fields = ", ".join(f"{f}: sel({limbs(get('self.' + f + '.0'))})" for f in recipe["fields"])
+        body += f"let key = {recipe['struct']} {{ {fields} }};\n"
+        args = ", ".join({"sep": "&" + S("sep"), "evaluations": "&evaluations"}[a] for a in recipe["call_args"])
+        body += f"let got: BlsScalar = key.compute_linearization({args}).evaluate(&BlsScalar::from(7u64));\n"
+        body += f"let want = sc({limbs(want)}); let predicted = sc({limbs(code)});\n"
+    elif kind == "scalar_fn":
         args = ", ".join(("&" if a.startswith("&") else "") + S(a.lstrip("&")) for a in recipe["args"])
         body += f"let got: BlsScalar = {recipe['path']}({args});\n"
         body += f"let want = sc({limbs(want)}); let predicted = sc({limbs(code)});\n"
